@@ -46,7 +46,60 @@ def plan(tier, seed):
     for i in range(nrand):
         recipes.append({"k": "tu", "seed": seed * 100019 + i})
     nsh = 16
-    return [{"name": f"decl-{i}", "recipes": recipes[i::nsh]} for i in range(nsh)]
+    return [{"name": f"decl-{i}", "recipes": recipes[i::nsh]} for i in range(nsh)] + [{"name": "labelled", "mode": "labelled", "recipes": []}]
+
+
+# a declaration directly after a label / case / default (accepted by the parser as in C23): it must declare exactly what
+# the same declaration declares when an empty statement separates it from the label (metamorphic twin)
+LABELLED = [
+    ("void g(int sel) { retry: %s static const char *msg, sep = ','; again: %s int n = 1, *p = &n, w[2]; if (sel) goto retry; }", 2),
+    ("int k(int kind, int v) { switch (kind) { case 0: %s int twice = v * 2, *pt = &twice, arr[2]; return twice; case 1: v++; "
+     "default: %s static const char *m2, s2 = ','; return v; } }", 2),
+    ("void h(void) { a: b: %s struct P { int x; } p1, *p2, p3[2]; c: %s typedef int T1, *T2; d: %s enum { E1 } e1, e2; }", 3),
+    ("void q(int c) { if (c) l1: %s; switch (c) { default: %s register int r1, r2 = 2; { case 2: %s int (*fp)(int), arr2[3][2]; } } }", 3),
+]
+
+
+def _decls_of(ast):
+    from ..nf import nf, walk
+    out = []
+    for n in walk(ast):
+        if type(n).__name__ in ("Decl", "Typedef"):
+            out.append((type(n).__name__, n.name, nf(n, coords=False)))
+    return out
+
+
+def run_labelled():
+    from .. import sut
+    from ..nf import first_diff
+    S = sut.load()
+    res = {"evaluations": 0, "nontrivial_distinct": 0, "hashes": [], "violations": [], "samples": [],
+           "counters": {"labelled_declarations": 0}, "kf_counts": {}}
+    for k, (tmpl, nslots) in enumerate(LABELLED):
+        plain = tmpl % ((";",) * nslots)
+        lab = tmpl % (("",) * nslots)
+        try:
+            want = _decls_of(S.CParser().parse(plain, "l.c"))
+        except Exception:  # noqa: BLE001 - the twin itself is plain C99 and covered by the main stream
+            continue
+        case = {"labelled_template": k, "text": lab}
+        res["evaluations"] += 1
+        res["nontrivial_distinct"] += 1
+        try:
+            got = _decls_of(S.CParser().parse(lab, "l.c"))
+        except S.ParseError:
+            continue        # rejecting the C23 form is allowed; reading it differently is not
+        except Exception as e:  # noqa: BLE001
+            res["violations"].append({"kind": "rejected-valid-declaration", "sig": type(e).__name__, "case": case,
+                                      "detail": {"error": f"{type(e).__name__}: {e}"}})
+            continue
+        res["counters"]["labelled_declarations"] += len(got)
+        if got != want:
+            res["violations"].append({"kind": "declaration-differs-from-C-reading", "sig": "after-label", "case": case,
+                                      "detail": {"declared_with_empty_statement_between": [(a, b) for a, b, _ in want],
+                                                 "declared_directly_after_label": [(a, b) for a, b, _ in got],
+                                                 "first_difference": first_diff([c for _, _, c in want], [c for _, _, c in got])}})
+    return res
 
 
 def _count(r, case):
@@ -58,13 +111,19 @@ def _count(r, case):
 
 
 def run_shard(spec):
+    if spec.get("mode") == "labelled":
+        return run_labelled()
     return mc.run_recipes(spec, "rejected-valid-declaration", "declaration-differs-from-C-reading", _count)
 
 
 def summarize(results, tier, seed):
-    return {"monitors": mc.merge_counters(results),
+    mon = mc.merge_counters(results)
+    mon["labelled_declaration_twins"] = sum(r.get("counters", {}).get("labelled_declarations", 0) for r in results)
+    return {"monitors": mon,
             "exhaustive_parts": [f"all derivation sequences of length <= {3 if tier == 'quick' else 4} over 8 variants x 14 contexts"]}
 
 
 def replay(rec):
+    if "labelled_template" in rec["case"]:
+        return run_labelled()["violations"]
     return mc.eval_recipe(rec["case"]["recipe"], "rejected-valid-declaration", "declaration-differs-from-C-reading")[3]
